@@ -94,7 +94,8 @@ class Proc:
         tmpd = other_device_tmp(workdir)
         if tmpd:
             env["TMPDIR"] = tmpd
-        self.p = subprocess.Popen([PY, CHILD, kind, self.spec_path], env=env, stdout=subprocess.DEVNULL, stderr=subprocess.PIPE, cwd=workdir)
+        # the working directory of a client or server process is not its HOME either: where there is a second file system it is there
+        self.p = subprocess.Popen([PY, CHILD, kind, self.spec_path], env=env, stdout=subprocess.DEVNULL, stderr=subprocess.PIPE, cwd=tmpd or workdir)
 
     def wait(self, timeout=120):
         try:
